@@ -56,7 +56,13 @@ def gen_cases(tier, seed):
             fam, R, optd = "near-diagonal", Rt, None
             shape = [max(s_, Rt) for s_ in shape]
             init = ["nvecs", "near-truth"][int(rng.integers(0, 2))]
-        yield {"w": "als", "rep": rep, "shape": shape, "Rt": Rt, "R": R, "dimorder": dimorder, "optdims": optd, "init": init,
+        store = None
+        if rep == "tensor" and fam == "lowrank" and i % 4 == 2:
+            store = ["uint8", "int8", "int16", "bool", "float32", "uint16", "int32"][(i // 4) % 7]
+            scale = 1.0
+            if store == "bool" and init == "nvecs":
+                init = "given"
+        yield {"w": "als", "rep": rep, "shape": shape, "Rt": Rt, "R": R, "dimorder": dimorder, "optdims": optd, "init": init, "store": store,
                "fixsigns": bool(rng.integers(0, 2)), "printitn": int(rng.choice([0, 1, 3])), "stoptol": float(rng.choice([0.0, 0.0, 1e-4, 1e-1])),
                "kmax": 4 if tier == "quick" else 6, "gseed": int(rng.integers(0, 2 ** 31)), "cseed": int(seed) * 49979687 + next(cs),
                "scale": scale, "fam": fam}
@@ -97,7 +103,19 @@ def run_case(case, ctx):
     else:
         Kt = ttb.ktensor([rng.standard_normal((s, Rt)) for s in shape], (rng.random(Rt) + 0.5) * scale)
         X = denote(Kt) + 0.1 * scale * rng.standard_normal(shape)
-    if rep == "tensor":
+    store = case.get("store")
+    if rep == "tensor" and store:
+        # the same kind of data held in a narrow element type (image-like / count-like / mask data); the reference is its float64 image
+        mx = float(np.max(np.abs(X))) + 1e-300
+        if store == "bool":
+            Xst = X > 0.2 * mx
+        elif store in ("uint8", "uint16"):
+            Xst = np.round(np.abs(X) / mx * (250 if store == "uint8" else 60000)).astype(store)
+        else:
+            Xst = np.round(X / mx * {"int8": 120, "int16": 30000, "int32": 2.0e9, "float32": 1.0}[store]).astype(store) if store != "float32" else X.astype(np.float32)
+        D = _recording(ttb.tensor)(Xst.copy())
+        Xd = np.asarray(Xst, dtype=float)
+    elif rep == "tensor":
         D = _recording(ttb.tensor)(X.copy())
         Xd = X
     elif rep == "sptensor":
@@ -132,8 +150,13 @@ def run_case(case, ctx):
     if case["init"] == "near-truth":
         M0 = ttb.ktensor([np.eye(s, R) + 0.01 * rng.standard_normal((s, R)) for s in shape])
     ctx.feat(rep=rep, init=case["init"], N=N, R=R, all_modes=(optd is None), fixsigns=case["fixsigns"], printitn=case["printitn"], stoptol=case["stoptol"],
-             fam=fam, scale=("1" if scale == 1.0 else "tiny" if scale < 1e-6 else "small" if scale < 1 else "large"))
+             fam=fam, scale=("1" if scale == 1.0 else "tiny" if scale < 1e-6 else "small" if scale < 1 else "large"), store=str(store))
+    if store and min(np.linalg.matrix_rank(np.moveaxis(Xd, n_, 0).reshape(shape[n_], -1)) for n_ in range(N)) < R:
+        ctx.tag("outside-domain(unfolding rank < requested rank)")
+        return
     normX2 = float(np.sum(Xd ** 2))
+    # single-precision data is processed in single precision: rounding is judged at the precision of the data's own arithmetic
+    EPS = float(np.finfo(np.float32).eps) if store == "float32" else float(np.finfo(float).eps)
     data_digest = state_digest(D)
     prevR2 = None
     stop0 = case["stoptol"] == 0.0
@@ -172,7 +195,7 @@ def run_case(case, ctx):
             ctx.check(abs(out["normresidual"] ** 2 - R2) <= tolR, "cp_als", "WRONG-RESIDUAL",
                       f"reported normresidual^2 {out['normresidual'] ** 2!r} vs recomputed ||X-M||^2 {R2!r} (tol {tolR:.3g})", maxiters=mi)
             fit = 1 - np.sqrt(R2) / np.sqrt(normX2)
-            ftol = tolR / (2 * max(np.sqrt(R2), 1e-300) * np.sqrt(normX2)) + 1e-12
+            ftol = tolR / (2 * max(np.sqrt(R2), 1e-300) * np.sqrt(normX2)) + 1e-12 + (1e-5 if store == "float32" else 0.0)
             ctx.check(abs(out["fit"] - fit) <= ftol, "cp_als", "WRONG-FIT", f"reported fit {out['fit']!r} vs recomputed {fit!r} (tol {ftol:.3g})", maxiters=mi)
         else:
             val = normM2 - 2 * float(np.sum(Xd * Md))
